@@ -528,6 +528,15 @@ func sinkClassesRuleSSA(r *Run, rule string) {
 		}
 	}
 	pw := &pathWalker{unroll1: true, maxPaths: 20000, inline: func(caller, callee *ssa.Function) bool {
+		// a function literal of the sink itself (emit := func(s string) { bb.Write(...) }) is part of the sink
+		if top := callee.Parent(); top != nil {
+			for top.Parent() != nil {
+				top = top.Parent()
+			}
+			if top == fn {
+				return true
+			}
+		}
 		if callee.Signature.Recv() == nil && callee.Signature.Params().Len() == 1 && isBasicKind(callee.Signature.Params().At(0).Type(), types.String) {
 			return false // a bytes-of-string helper is recognised as such
 		}
